@@ -755,7 +755,7 @@ for _mod, _tag in ((REF, "ref"), (OPT, "opt")):
 
 
 # ------------------------------------------------------------------------------------------
-# FQP.inv for d = 2: complete symbolic path enumeration (DESIGN L1); FQ12.inv is a bounded stand-in
+# FQP.inv for d = 2: complete symbolic path enumeration (DESIGN L1); every degree: the loop contract further below
 # ------------------------------------------------------------------------------------------
 def u_fq2_inv(ctx, modname):
     q = f"{modname}.FQP.inv"
@@ -859,3 +859,361 @@ def u_sgn0(ctx):
 
 UNITS["opt.sgn0"] = Unit("opt.sgn0", u_sgn0, [f"{OPT}.FQ.sgn0", f"{OPT}.FQP.sgn0", f"{OPT}.FQ2.sgn0", f"{OPT}.mod_int"],
                          props=("C14", "C10"))
+
+
+# ------------------------------------------------------------------------------------------
+# FQP.inv for any degree (d = 2 and d = 12 instantiated): the extended Euclid under a loop contract
+# ------------------------------------------------------------------------------------------
+# State of the loop: four lists of length d+1 read as polynomials lm, hm, low, high.  Invariant
+#   (I1)  lm(W)·A(W) = low(W)  and  hm(W)·A(W) = high(W)   in (Z/p)[W]/(M)       (A = abs(self))
+#   (I3)  lm·high − hm·low = ±M   as polynomials (one step negates the left-hand side exactly)
+#   (B)   high has exact degree dh >= 1, low has degree dl <= d-1 (exact unless low = 0),
+#         lm[k] = 0 for k > d-dh,  hm[k] = 0 for k > d-dl
+#   (T)   representation: low/high entries are valid field elements (reference: FQ objects, optimized:
+#         reduced ints), lm/hm entries are ints (optimized: reduced)
+# (B) is what makes the *truncated* products of the code (i+j <= d only) exact.  The quotient `r` is used
+# through the contract of (optimized_)poly_rounded_div only: length, reducedness and leading coefficient —
+# its lower coefficients are arbitrary (the code's division is not the textbook one, and need not be).
+# Exit (deg(low) = 0, low = c): c != 0 unless self = 0 by lean/Euclid.lean:inv_exit_ne_zero from I1, I3, B and
+# the class invariant 'M irreducible';  then  (lm/c)·A = 1  by I1.
+# One Hoare-rule instance per degree pair (dh, dl): the lists are havocked with concrete zero tails.
+def _poly_at(cs, X, K):
+    acc, Xp = K(0), K(1)
+    for c in cs:
+        acc = acc + coeff_abs(c, K) * Xp
+        Xp = Xp * X
+    return acc
+
+
+def _known_degree(path, cs, K, what):
+    """exact degree of a coefficient list under the path facts (entries above provably zero, the entry itself
+    provably non-zero); 0 for the provably zero list"""
+    k = len(cs) - 1
+    while k >= 0:
+        n = coeff_abs(cs[k], K).r.n
+        if path.pc.prove_zero(n):
+            k -= 1
+            continue
+        if path.pc.prove_nonzero(n):
+            return k
+        raise Unsupported(f"{what}: degree not determined by the path facts at index {k}")
+    return 0
+
+
+class PolyRoundedDivContract:
+    """(optimized_)poly_rounded_div(a, b) with deg a = da, deg b = db exact, b[db] != 0:
+    returns a fresh sequence q of at most len(a) ints (any representatives), zero modulo p above index t = max(da-db,0),
+    with q[t]·b[db] = a[da] when da >= db and q = 0 otherwise; a and b are not modified.  (The call-site instance has
+    exactly t+1 entries; `inv` pads with zeros, so trailing zero entries make no difference.)  Proved against the real functions by the units *.poly_rounded_div."""
+
+    def __init__(self, fs, as_list):
+        self.fs, self.as_list = fs, as_list
+        self.calls = 0
+
+    def apply(self, interp, fv, env):
+        path, K = cur(), self.fs.K
+        a, b = env["a"], env["b"]
+        if not (isinstance(a, list) and isinstance(b, list) and len(a) == len(b)):
+            raise Unsupported("poly_rounded_div: operands are not lists of equal length")
+        da, db = _known_degree(path, a, K, "dividend"), _known_degree(path, b, K, "divisor")
+        lead = coeff_abs(b[db], K)
+        if not path.pc.prove_nonzero(lead.r.n):
+            raise Unsupported("poly_rounded_div: requires a non-zero divisor")
+        self.calls += 1
+        if da < db:
+            q = [0]
+        else:
+            # arbitrary integer representatives: the callers must not rely on the quotient being stored reduced
+            q = [Fld(R(Poly.var(f"r{next(path.fresh_id)}_{j}")), K, reduced=False) for j in range(da - db)]
+            top = coeff_abs(a[da], K) / lead
+            q.append(Fld(top.r, K, reduced=False))
+        return q if self.as_list else tuple(q)
+
+
+class EuclidLoop:
+    def __init__(self, fs, name, mode, case=None):
+        self.fs, self.name, self.mode, self.case = fs, name, mode, case
+        self.after = None
+
+    # ---- state -----------------------------------------------------------------------------
+    def _fe(self, path, tag, zero=False, as_int=False):
+        """a list entry of low/high: valid field element in the representation of the file"""
+        fs = self.fs
+        if zero and (as_int or fs.modname == OPT):
+            return 0
+        n = fs.K(0) if zero else Fld(R(Poly.var(f"{tag}")), fs.K, reduced=True)
+        if fs.modname == OPT:
+            return n
+        o = Obj(fs.GFQ)
+        o.attrs["n"] = n
+        return o
+
+    def _ie(self, tag, zero=False):
+        """a list entry of lm/hm: an arbitrary int (read modulo p; nothing compares them)"""
+        if zero:
+            return 0
+        return Fld(R(Poly.var(tag)), self.fs.K, reduced=False)
+
+    def _assume_inv(self, path, st, W, A):
+        K = self.fs.K
+        path.assume(eqz(_poly_at(st["lm"], W, K) * A, _poly_at(st["low"], W, K)), "I1: lm·A = low in (Z/p)[W]/(M)")
+        path.assume(eqz(_poly_at(st["hm"], W, K) * A, _poly_at(st["high"], W, K)), "I1: hm·A = high in (Z/p)[W]/(M)")
+
+    def _det(self, st, X):
+        K = self.fs.K
+        return _poly_at(st["lm"], X, K) * _poly_at(st["high"], X, K) - _poly_at(st["hm"], X, K) * _poly_at(st["low"], X, K)
+
+    def _zero_above(self, path, cs, k):
+        K = self.fs.K
+        return all(path.pc.prove_zero(coeff_abs(c, K).r.n) for c in cs[k + 1:])
+
+    def _valid_fe(self, cs):
+        fs = self.fs
+        if fs.modname == OPT:
+            return all(not isinstance(c, Obj) and coeff_reduced(c, fs.K) for c in cs)
+        return all((isinstance(c, Obj) and c.cls.is_subclass(fs.FQ) and coeff_reduced(c, fs.K)) or (isinstance(c, int) and c == 0)
+                   for c in cs)
+
+    def _valid_int(self, cs):
+        return all(isinstance(c, (int, Fld)) and not isinstance(c, bool) for c in cs)
+
+    def _check_post(self, path, pre, post, dh, dl, W, X, A, tag):
+        """the invariant after one step from a state with degrees (dh, dl)"""
+        nm, K, d = self.name, self.fs.K, self.fs.d
+        ok_shape = all(isinstance(post[k], list) and len(post[k]) == d + 1 for k in ("lm", "hm", "low", "high"))
+        path.prove(f"{nm}/loop.euclid/preserve.shape", ok_shape, kind="invariant", detail=f"{tag}: four lists of length d+1")
+        if not ok_shape:
+            return
+        path.prove(f"{nm}/loop.euclid/preserve.I1", eqz(_poly_at(post["lm"], W, K) * A, _poly_at(post["low"], W, K)),
+                   kind="invariant", detail=f"{tag}: lm'·A = low' modulo M")
+        path.prove(f"{nm}/loop.euclid/preserve.I1", eqz(_poly_at(post["hm"], W, K) * A, _poly_at(post["high"], W, K)),
+                   kind="invariant", detail=f"{tag}: hm'·A = high' modulo M")
+        path.prove(f"{nm}/loop.euclid/preserve.I3", eqz(self._det(post, X) + self._det(pre, X)), kind="invariant",
+                   detail=f"{tag}: lm'·high' − hm'·low' = −(lm·high − hm·low) exactly (no truncated term)")
+        # (B): high' = low (degree dl exact), lm' zero above d-dl; low' of degree <= dlb, hm' zero above d-dlb
+        dlb = dh - 1 if dh >= dl else dh
+        b1 = self._zero_above(path, post["high"], dl) and path.pc.prove_nonzero(coeff_abs(post["high"][dl], K).r.n)
+        path.prove(f"{nm}/loop.euclid/preserve.B", b1, kind="invariant", detail=f"{tag}: high' has exact degree {dl} >= 1")
+        path.prove(f"{nm}/loop.euclid/preserve.B", self._zero_above(path, post["lm"], d - dl), kind="invariant",
+                   detail=f"{tag}: lm'[k] = 0 for k > d - deg high' = {d - dl}")
+        path.prove(f"{nm}/loop.euclid/preserve.B", self._zero_above(path, post["low"], min(dlb, d - 1)), kind="invariant",
+                   detail=f"{tag}: low'[k] = 0 for k > {min(dlb, d - 1)} (degree drops below deg high = {dh})")
+        path.prove(f"{nm}/loop.euclid/preserve.B", self._zero_above(path, post["hm"], d - dlb), kind="invariant",
+                   detail=f"{tag}: hm'[k] = 0 for k > d - {dlb}")
+        path.prove(f"{nm}/loop.euclid/preserve.T", self._valid_fe(post["low"]) and self._valid_fe(post["high"]) and
+                   self._valid_int(post["lm"]) and self._valid_int(post["hm"]), kind="invariant",
+                   detail=f"{tag}: representation of the four lists")
+        before = 2 * (dh + dl) + (1 if dh < dl else 0)
+        after = 2 * (dl + dlb) + (1 if dh >= dl else 0)
+        path.prove(f"{nm}/loop.euclid/decreases", after < before, kind="decreases",
+                   detail=f"{tag}: 2(deg high + deg low) + [deg high < deg low]: {before} -> at most {after}")
+
+    def _read(self, fr):
+        return {k: fr.env[k] for k in ("lm", "hm", "low", "high")}
+
+    # ---- the three instances of the Hoare rule -------------------------------------------------
+    def run_while(self, interp, st, fr):
+        path = cur()
+        fs, K, d, nm = self.fs, self.fs.K, self.fs.d, self.name
+        prev, path.in_source = path.in_source, False
+        try:
+            W, X = path.ghost["W"], path.ghost["X"]
+            A = fqp_poly(fr.env["self"], W, K)
+            if self.mode == "first":
+                init = self._read(fr)
+                path.prove(f"{nm}/loop.euclid/entry.I1", eqz(_poly_at(init["lm"], W, K) * A, _poly_at(init["low"], W, K)),
+                           kind="invariant", detail="1·A = A")
+                path.prove(f"{nm}/loop.euclid/entry.I1", eqz(_poly_at(init["hm"], W, K) * A, _poly_at(init["high"], W, K)),
+                           kind="invariant", detail="0·A = M(W) = 0 in the quotient")
+                MX = modulus_poly(fs.mods, X, K)
+                path.prove(f"{nm}/loop.euclid/entry.I3", eqz(self._det(init, X), MX), kind="invariant", detail="1·M − 0·A = M")
+                b = self._zero_above(path, init["lm"], 0) and self._zero_above(path, init["hm"], -1) and \
+                    self._zero_above(path, init["low"], d - 1) and path.pc.prove_nonzero(coeff_abs(init["high"][d], K).r.n)
+                path.prove(f"{nm}/loop.euclid/entry.B", b, kind="invariant", detail="deg high = d, lm = 1, hm = 0, deg low <= d-1")
+                path.in_source = True
+                g = interp.truth(interp.eval(st.test, fr), "loop guard")
+                path.in_source = False
+                if not g:
+                    self.after = ("exit-first", None)
+                    return                                  # deg(self) = 0: the code after the loop runs on the real state
+                dl = _known_degree(path, init["low"], K, "low")
+                pre = {k: list(v) for k, v in init.items()}
+                path.in_source = True
+                interp.exec_block(st.body, fr)
+                path.in_source = False
+                self._check_post(path, pre, self._read(fr), d, dl, W, X, A, f"first iteration, deg self = {dl}")
+                raise PathAbort()
+            dh, dl, top_int = self.case
+            pre = dict(
+                lm=[self._ie(f"lm{k}", zero=(k > d - dh)) for k in range(d + 1)],
+                hm=[self._ie(f"hm{k}", zero=(k > d - dl)) for k in range(d + 1)],
+                low=[self._fe(path, f"lo{k}", zero=(k > dl)) for k in range(d + 1)],
+                high=[self._fe(path, f"hi{k}", zero=(k > dh), as_int=(top_int and k == d)) for k in range(d + 1)])
+            path.assume(FAtom(coeff_abs(pre["high"][dh], K).r.n, False), "B: high has exact degree dh")
+            if dl > 0:
+                path.assume(FAtom(coeff_abs(pre["low"][dl], K).r.n, False), "B: low has exact degree dl")
+            self._assume_inv(path, pre, W, A)
+            for k, v in pre.items():
+                fr.env[k] = list(v)
+            path.in_source = True
+            g = interp.truth(interp.eval(st.test, fr), "loop guard")
+            path.in_source = False
+            if self.mode == "step":
+                path.prove(f"{nm}/loop.euclid/guard", g is True, kind="invariant", detail=f"deg low = {dl} >= 1: the loop continues")
+                if not g:
+                    raise PathAbort()
+                path.in_source = True
+                interp.exec_block(st.body, fr)
+                path.in_source = False
+                self._check_post(path, pre, self._read(fr), dh, dl, W, X, A, f"deg high = {dh}, deg low = {dl}")
+                raise PathAbort()
+            # exit: low = c
+            path.prove(f"{nm}/loop.euclid/guard", g is False, kind="invariant", detail="deg low = 0: the loop stops")
+            if g:
+                raise PathAbort()
+            self.after = ("exit", pre)
+        finally:
+            path.in_source = prev
+
+
+def _euclid_env(ctx, path, modname, d, mode, case):
+    q = f"{modname}.FQP.inv"
+    it, fs, W = _fqp_env(ctx, path, modname, d, top=q)
+    path.ghost["X"] = fsym("X", fs.K)
+    lc = EuclidLoop(fs, f"{q}[d={d}]", mode, case)
+    it.cfg.loops[(q, 0)] = lc
+    prd = f"{UTILS}.poly_rounded_div" if modname == REF else f"{modname}.FQP.optimized_poly_rounded_div"
+    it.cfg.contracts[prd] = PolyRoundedDivContract(fs, as_list=(modname == OPT))
+    return it, fs, W, lc
+
+
+def _check_inverse(path, name, fs, W, x, res):
+    A = fqp_poly(x, W, fs.K)
+    ok = isinstance(res, Obj) and res.cls is fs.GX and isinstance(res.attrs.get("coeffs"), tuple) and len(res.attrs["coeffs"]) == fs.d
+    path.prove(f"{name}/ensures.type", ok, detail="result is an object of type(self) with d coefficients")
+    if not ok:
+        return
+    path.prove(f"{name}/ensures.valid", all(coeff_reduced(c, fs.K) for c in res.attrs["coeffs"]), detail="coefficients stored reduced")
+    return fqp_poly(res, W, fs.K), A
+
+
+def u_fqp_inv_euclid(ctx, modname, d, dh):
+    """dh = 0: entry + peeled first iteration from the real initial state (all degrees of self) and the immediate exit;
+    dh >= 1: every step and the exit from a state whose `high` has degree dh"""
+    q = f"{modname}.FQP.inv"
+    name = f"{q}[d={d}]"
+    from contracts.closed import lean_cite
+
+    if dh == 0:
+        def body(path):
+            it, fs, W, lc = _euclid_env(ctx, path, modname, d, "first", None)
+            x = fs.sym_fqp("a")
+            k, res = call_method(it, x, "inv", [])
+            if k == "raise":
+                path.prove(f"{name}/raises.none", False, detail=f"raised {res.__name__}")
+                return
+            # only the path on which the loop is not entered arrives here: self = a0 constant
+            got = _check_inverse(path, name, fs, W, x, res)
+            if got is None:
+                return
+            Rv, A = got
+            if path.case(eqz(A), "self = 0?"):
+                path.prove(f"{name}/ensures.inv0", eqz(Rv), detail="inv(0) = 0")
+            else:
+                path.prove(f"{name}/ensures.inverse", eqz(Rv * A, fs.K(1)), detail="constant self: inv(x)·x = 1")
+        ctx.ex.run(body, name + "/first")
+        return
+
+    def step(path):
+        cases = [(dl, t) for dl in range(1, d) for t in ((False, True) if dh < d else (False,))]
+        c = path.choose(len(cases), "degree of low / representation of the zero top entry")
+        dl, top_int = cases[c]
+        path.sig[-1] = f"dh={dh},dl={dl}" + (",top=int0" if top_int else "")
+        it, fs, W, lc = _euclid_env(ctx, path, modname, d, "step", (dh, dl, top_int))
+        x = fs.sym_fqp("a")
+        call_method(it, x, "inv", [])
+        path.prove(f"{name}/loop.euclid/guard", False, detail="step instance fell out of the loop contract")
+    ctx.ex.run(step, name + f"/step[dh={dh}]")
+
+    def exit_(path):
+        it, fs, W, lc = _euclid_env(ctx, path, modname, d, "exit", (dh, 0, False))
+        x = fs.sym_fqp("a")
+        k, res = call_method(it, x, "inv", [])
+        if k == "raise":
+            path.prove(f"{name}/raises.none", False, detail=f"raised {res.__name__}")
+            return
+        got = _check_inverse(path, name, fs, W, x, res)
+        if got is None or lc.after is None:
+            return
+        Rv, A = got
+        c = coeff_abs(lc.after[1]["low"][0], fs.K)
+        if path.pc.prove_zero(c.r.n):
+            # c = 0: by L-EUCLID (I1, I3, B, M irreducible) this happens only for self = 0; the code then returns lm/0 = 0
+            path.prove(f"{name}/ensures.inv0", eqz(Rv), detail="exit with low = 0 (only for self = 0, lean/Euclid.lean): result is 0")
+        else:
+            path.prove(f"{name}/ensures.inverse", eqz(Rv * A, fs.K(1)), detail=f"exit with low = c != 0, deg high = {dh}: (lm/c)·A = 1 by I1")
+    ctx.ex.run(exit_, name + f"/exit[dh={dh}]")
+    if dh == 1:
+        lean_cite(ctx, [("Euclid.lean", "inv_exit_ne_zero", "exit of the extended Euclid: low = c with I1, I3, deg high >= 1, M irreducible, M ∤ self ⇒ c ≠ 0"),
+                        ("Euclid.lean", "euclid_not_dvd", "a non-zero polynomial of degree < deg M is not divisible by M")])
+        ctx.assume("class invariant: the modulus polynomial is irreducible over Z/p (used only through lean/Euclid.lean at the loop exit)")
+
+
+def u_poly_rounded_div(ctx, modname, d):
+    """the contract PolyRoundedDivContract against the real function, for every degree pair"""
+    ref = modname == REF
+    q = f"{UTILS}.poly_rounded_div" if ref else f"{modname}.FQP.optimized_poly_rounded_div"
+    name = f"{q}[len={d + 1}]"
+
+    def body(path):
+        cases = [(da, db) for da in range(0, d + 1) for db in range(1, d + 1)]
+        c = path.choose(len(cases), "degrees")
+        da, db = cases[c]
+        path.sig[-1] = f"da={da},db={db}"
+        it, fs, W = _fqp_env(ctx, path, modname, d, top=q)
+        lc = EuclidLoop(fs, name, "none")
+        a = [lc._fe(path, f"a{k}", zero=(k > da)) for k in range(d + 1)]
+        b = [lc._fe(path, f"b{k}", zero=(k > db)) for k in range(d + 1)]
+        path.assume(FAtom(coeff_abs(b[db], fs.K).r.n, False), "requires: b has exact degree db")
+        if da > 0:
+            path.assume(FAtom(coeff_abs(a[da], fs.K).r.n, False), "requires: a has exact degree da")
+        a0, b0 = list(a), list(b)
+        try:
+            if ref:
+                fv = it.module_value(it.prog.load(UTILS), "poly_rounded_div")
+                it.cfg.top = q
+                res = it.call_function(fv, [a, b], {}, force_inline=True)
+            else:
+                x = fs.sym_fqp("s")
+                k, res = call_method(it, x, "optimized_poly_rounded_div", [a, b])
+                if k == "raise":
+                    raise PyRaise(res, "")
+        except PyRaise as pr:
+            path.prove(f"{name}/raises.none", False, detail=f"raised {pr.exc_cls.__name__}")
+            return
+        t = max(da - db, 0)
+        ok = isinstance(res, (tuple, list)) and t + 1 <= len(res) <= d + 1 and \
+            all(isinstance(c_, (int, Fld)) and not isinstance(c_, bool) for c_ in res)
+        path.prove(f"{name}/ensures.length", ok, detail=f"between {t + 1} and d+1 int coefficients for degrees ({da}, {db})")
+        if not ok:
+            return
+        path.prove(f"{name}/ensures.degree", all(path.pc.prove_zero(coeff_abs(c_, fs.K).r.n) for c_ in res[t + 1:]),
+                   detail=f"coefficients above index {t} are zero modulo p")
+        if da >= db:
+            path.prove(f"{name}/ensures.lead", eqz(coeff_abs(res[t], fs.K) * coeff_abs(b[db], fs.K), coeff_abs(a[da], fs.K)),
+                       detail="leading coefficient: q[top]·b[db] = a[da]")
+        else:
+            path.prove(f"{name}/ensures.lead", eqz(coeff_abs(res[0], fs.K)), detail="deg a < deg b: quotient 0")
+        path.prove(f"{name}/frame", len(a) == len(a0) and all(u is v for u, v in zip(a, a0)) and
+                   len(b) == len(b0) and all(u is v for u, v in zip(b, b0)), kind="frame", detail="operands are not modified")
+    ctx.ex.run(body, name)
+
+
+for _mod, _tag in ((REF, "ref"), (OPT, "opt")):
+    _prd = f"{UTILS}.poly_rounded_div" if _mod == REF else f"{_mod}.FQP.optimized_poly_rounded_div"
+    for _d in (2, 12):
+        for _dh in range(0, _d + 1):
+            UNITS[f"{_tag}.FQP.inv.d{_d}.dh{_dh}"] = Unit(f"{_tag}.FQP.inv.d{_d}.dh{_dh}", u_fqp_inv_euclid,
+                                                         [f"{_mod}.FQP.inv", f"{UTILS}.deg"], props=("C08", "C14"), args=(_mod, _d, _dh))
+        UNITS[f"{_tag}.poly_rounded_div.d{_d}"] = Unit(f"{_tag}.poly_rounded_div.d{_d}", u_poly_rounded_div, [_prd, f"{UTILS}.deg"],
+                                                      props=("C08", "C14"), args=(_mod, _d))
